@@ -10,7 +10,8 @@ LEVEL = "exploration"
 RULE = (
     "wide programs: 1-4 parallel function nodes per level (async coroutines, async generators, plain sync functions "
     "mixed), nested graphs to depth 0-3, map_over nodes with fan-out 1-4 at any level (also a mapping node inside a "
-    "mapped graph), and runner.map over 1-4 items of such a program; max_concurrency k in 1..4 and unlimited. The "
+    "mapped graph), and runner.map over 1-4 items of such a program; max_concurrency k in 1..4 and unlimited; in 40% of the programs 1-3 leaf "
+    "functions (plain sync ones preferred) raise, errors raised or collected. The "
     "controlled scheduler parks every async body and releases one only when the event loop is exactly quiescent, so at "
     "each quiescent point as many bodies are open as the framework allows (worst case for the bound, and the state in "
     "which a permit held across a nested run deadlocks); release policies FIFO, LIFO, seeded random; optional "
@@ -72,10 +73,16 @@ def fill_flags(spec):
     return spec
 
 
+class Boom(Exception):
+    pass
+
+
 def norm(o):
+    if o.exc is not None:
+        return ("raised", type(o.exc).__name__, str(o.exc))
     if o.status == "map":
-        return ("map", [(s, v, type(e).__name__ if e else None) for s, v, e in o.values])
-    return (o.status, o.values, type(o.error).__name__ if o.error else None)
+        return ("map", [(s, v, (type(e).__name__, str(e)) if e else None) for s, v, e in o.values])
+    return (o.status, o.values, (type(o.error).__name__, str(o.error)) if o.error else None)
 
 
 def one(ctx, i):
@@ -91,9 +98,23 @@ def one(ctx, i):
         inputs["x"] = [f"x{q}" for q in range(n)]
         map_kw = {"map_over": "x"}
     case = {"spec": spec, "inputs": core.jsonable(inputs), "form": form, "depth": depth}
+    # failing nodes (a permit must be given back on every exit path): 1-3 leaf functions raise, sync ones preferred
+    fkw = {}
+    if rng.random() < 0.4:
+        from hgmon.build import all_fids
+
+        fids = all_fids(spec)
+        sync_f = [f for f, ns in fids.items() if ns["k"] == "fn" and not ns.get("async")]
+        pool = sync_f if sync_f and rng.random() < 0.7 else list(fids)
+        chosen = rng.sample(pool, rng.randint(1, min(3, len(pool))))
+        fkw = {"fail": {f: Boom(f) for f in chosen}, "error_handling": rng.choice(["continue", "continue", "raise"])}
+        case["fail"] = chosen
+        case["error_handling"] = fkw["error_handling"]
+        ctx.obs["programs_with_failing_nodes"] += 1
+        map_kw = {**map_kw, **fkw}
     Rec, ARec = rt.make_processors()
     base = core.execute(spec, inputs, "async", sched=rt.Sched(default="first"), **map_kw)
-    if base.deadlock or base.inconclusive or base.exc is not None:
+    if base.deadlock or base.inconclusive or (base.exc is not None and not fkw):
         if base.deadlock:
             ctx.violation("C15:deadlock-unlimited", "unlimited run deadlocked", case)
         else:
@@ -139,7 +160,8 @@ def run(ctx):
     if ctx.replay:
         c = ctx.replay["case"]
         spec = c["spec"]
-        o = core.execute(spec, c["inputs"], "async", sched=rt.Sched(default=c.get("policy", "last"), rng=ctx.rng), max_concurrency=c.get("k", 1), **({"map_over": "x"} if c.get("form") == "runner.map" else {}))
+        fk = {"fail": {f: Boom(f) for f in c["fail"]}, "error_handling": c.get("error_handling", "raise")} if c.get("fail") else {}
+        o = core.execute(spec, c["inputs"], "async", sched=rt.Sched(default=c.get("policy", "last"), rng=ctx.rng), max_concurrency=c.get("k", 1), **fk, **({"map_over": "x"} if c.get("form") == "runner.map" else {}))
         if o.deadlock:
             ctx.violation("C15:deadlock", "replay: deadlock", c)
         elif o.rec.max_inflight_fn > c.get("k", 1):
